@@ -1,6 +1,7 @@
 import Jp.Lemmas.Valid
 import Jp.Lemmas.C12
 import Jp.Lemmas.Bounds
+import Jp.Lemmas.Utf8Cuts
 /-
   C12 — Splitting and range-slicing return the right sub-list as a borrowed view.
   Model: the eight `PointerIndex::get` loops of `src/pointer/slice.rs` (state idx/offset/start/end),
@@ -18,7 +19,7 @@ def spanOf (p : Bytes) (r : Option (Nat × Nat)) : Res Unit (Option Span) :=
 -- getRange_spec getRangeFrom_spec getRangeTo_spec getRangeIncl_spec getRangeToIncl_spec getRangeFull_spec
 -- getBounds_spec span_is_sublist no_panic splitAt_iff splitAt_concat splitFront_spec splitBack_spec
 -- parent_spec splitFrontV_view splitBackV_view take_drop_join excluded_max_none
--- loop_accumulators_bounded
+-- loop_accumulators_bounded views_are_utf8 splits_are_utf8
 
 theorem getRange_spec (p : Bytes) (a b : Nat) (h : validPtr p = true) :
     getRange p a b = spanOf p (rangeSpec (count p) a b) := by
@@ -324,8 +325,78 @@ theorem loop_accumulators_bounded (p : Bytes) (a b : Nat) (h : validPtr p = true
     Bounds.rangeToLoop_bounded p b h, Bounds.rangeInclLoop_bounded p a b h,
     Bounds.rangeToInclLoop_bounded p b h⟩
 
+/-! ### views are well-formed UTF-8
+
+  `slice.rs` builds every range view with `from_utf8_unchecked` ("start and end offsets are token
+  boundaries, so the slice is valid utf-8") and `split_at` with `new_unchecked`. A token boundary is the
+  position of a `/` byte (47, ASCII) or the end of the text, and such a position is a char boundary of
+  any well-formed UTF-8 string (`Jp.Spec.Utf8.chars_split_at_ascii`). -/
+
+/-- the token range denoted by a pair of bounds is ordered and within the token count -/
+theorem boundsSpec_range (n : Nat) (lo hi : Bound) (a b : Nat) (h : boundsSpec n lo hi = some (a, b)) :
+    a ≤ b ∧ b ≤ n := by
+  cases lo <;> cases hi <;>
+    simp only [boundsSpec, rangeSpec, rangeFromSpec, rangeToSpec, rangeInclSpec, rangeToInclSpec,
+      rangeFullSpec] at h <;>
+    (repeat' split at h) <;>
+    simp only [Option.some.injEq, Prod.mk.injEq, reduceCtorEq] at h <;> omega
+
+/-- the offset of token `k` is the end of the text or the position of a `/` -/
+theorem off_is_boundary (ts : List Bytes) (k : Nat) (hk : k ≤ ts.length) :
+    off ts k = (ofToks ts).length ∨ ∃ b, (ofToks ts)[off ts k]? = some b ∧ b < 128 := by
+  rcases Nat.lt_or_ge k ts.length with hlt | hge
+  · right
+    refine ⟨47, ?_, by omega⟩
+    have e : (ofToks ts)[off ts k]? = ((ofToks ts).drop (off ts k)).head? := by
+      rw [List.head?_drop]
+    rw [e, drop_off]
+    apply ofToks_head
+    intro hnil
+    have := congrArg List.length hnil
+    simp only [List.length_drop, List.length_nil] at this
+    omega
+  · left
+    have : k = ts.length := by omega
+    subst this
+    exact (ofToks_length ts).symm
+
+/-- every range view of a well-formed UTF-8 pointer is well-formed UTF-8 (what the
+    `from_utf8_unchecked` SAFETY comments of `slice.rs` rely on) -/
+theorem views_are_utf8 (p : Bytes) (lo hi : Bound) (sp : Span) (cs : List Bytes)
+    (hp : validPtr p = true) (hutf : Jp.Spec.Utf8.chars p = some cs)
+    (hg : getBounds p lo hi = .ok (some sp)) :
+    ∃ c, Jp.Spec.Utf8.chars ((p.drop sp.1).take (sp.2 - sp.1)) = some c := by
+  rw [getBounds_spec p lo hi hp] at hg
+  obtain ⟨ts, rfl, hts, hns, hv⟩ := valid_decomp hp
+  simp only [spanOf, count, hts, Res.ok.injEq, Option.map_eq_some_iff] at hg
+  obtain ⟨⟨a, b⟩, hab, rfl⟩ := hg
+  obtain ⟨h1, h2⟩ := boundsSpec_range _ lo hi a b hab
+  exact Jp.Spec.Utf8.chars_slice_ascii (ofToks ts) (off ts a) (off ts b) cs hutf (off_mono ts h1)
+    (off_le ts b) (off_is_boundary ts a (by omega)) (off_is_boundary ts b h2)
+
+/-- both halves of a successful `split_at` of a well-formed UTF-8 pointer are well-formed UTF-8 -/
+theorem splits_are_utf8 (p h t : Bytes) (k : Nat) (cs : List Bytes)
+    (hutf : Jp.Spec.Utf8.chars p = some cs) (hs : splitAt p k = some (h, t)) :
+    (∃ c, Jp.Spec.Utf8.chars h = some c) ∧ (∃ c, Jp.Spec.Utf8.chars t = some c) := by
+  unfold splitAt at hs
+  by_cases hk : p[k]? = some 47
+  · simp only [hk, ne_eq, not_true_eq_false, if_false, Option.some.injEq, Prod.mk.injEq] at hs
+    obtain ⟨rfl, rfl⟩ := hs
+    have hlt : k < p.length := (List.getElem?_eq_some_iff.mp hk).1
+    exact Jp.Spec.Utf8.chars_split_at_ascii p k cs hutf (by omega) (Or.inr ⟨47, hk, by omega⟩)
+  · simp [hk] at hs
+
 example : getBounds [47, 97, 47, 98] (.excluded usizeMax) .unbounded = .ok none := by decide
 example : getRange [] 0 0 = .ok none ∧ getRangeTo [] 0 = .ok (some (0, 0)) := by decide
 example : getRangeIncl [47, 126, 48, 47, 47, 98] 1 2 = .ok (some (3, 6)) := by decide
+-- "/é/b": `split_at(3)` cuts at the second `/`; both halves are well-formed UTF-8
+example : splitAt [47, 195, 169, 47, 98] 3 = some ([47, 195, 169], [47, 98]) := by decide
+example : (∃ c, Jp.Spec.Utf8.chars [47, 195, 169] = some c) ∧ (∃ c, Jp.Spec.Utf8.chars [47, 98] = some c) :=
+  splits_are_utf8 [47, 195, 169, 47, 98] [47, 195, 169] [47, 98] 3 [[47], [195, 169], [47], [98]]
+    (by decide) (by decide)
+-- `split_at(2)` would cut inside `é` (byte 169 is not `/`): refused
+example : splitAt [47, 195, 169, 47, 98] 2 = none := by decide
+-- the range view `get(1..)` of "/é/b" is bytes 3..5 = "/b"
+example : getBounds [47, 195, 169, 47, 98] (.included 1) .unbounded = .ok (some (3, 5)) := by decide
 
 end Jp.C12
